@@ -67,6 +67,14 @@ def check_case(ctx, v, params, kind, delivery, origin):
         ctx.count("cases_with_token_ending_at_end_of_stream")
     if any(exp[i][1] + 1 == exp[i + 1][0] for i in range(len(exp) - 1)):
         ctx.count("cases_with_cut_and_continuation")
+    if src.faults:
+        ctx.count("source_faults_injected")
+    if src.fault_propagated:
+        # the run ended with the injected exception: what was delivered before it are final tokens, i.e. a prefix of the model's
+        if got != exp[:len(got)]:
+            ctx.violation("tokens-before-a-source-fault-differ:" + classify(v, params, got, exp[:len(got)]), {
+                "case": T.case_of(v, params, kind, delivery), "observed": got[:30], "expected": exp[:30]})
+        return
     if got != exp:
         ctx.violation(classify(v, params, got, exp), {
             "case": T.case_of(v, params, kind, delivery), "observed": got[:30], "expected": exp[:30]})
